@@ -291,3 +291,32 @@ Fixpoint run_stream_any (fuel : nat) (k : cfg) (cmd : list Z) (p : pcd) (s : nat
          | S f => run_stream_any f k cmd (pcd_absorb_any k cmd p (s n)) s (S n)
          end
   end.
+
+(* ------------------------------------------------------------ ISO-DEP reader with repairs 03 and 19, scripted *)
+(* fixes/c08-19-isodep-wtx-chaining-without-end.diff: within one exchange() at most [W_MAX] S(WTX) requests and chained
+   response blocks are accepted, one more is a protocol error.  An answer is "wild" when it starts like an S(WTX) block
+   or has the chaining bit set; every wild answer either ends the exchange or is one of the two counted events, so the
+   budget turns the wild answers that come after it is used up into protocol errors. *)
+Definition W_MAX : Z := 65538.
+Definition wild_ans (a : aresult) : bool :=
+  match a with ARx (b0 :: _) => is_wtx b0 || negb (Z.land b0 16 =? 0) | _ => false end.
+Definition budgeted (w : Z) (a : aresult) : aresult := if wild_ans a && (w <=? 0) then AProto else a.
+(* IsoDepInitiator.exchange(cmd) against a script of clf.exchange() outcomes (past its end: silence); [w] = budget left;
+   result, number of clf.exchange() calls, block number afterwards *)
+Fixpoint run_script_any (fuel : nat) (k : cfg) (cmd : list Z) (p : pcd) (script : list aresult) (w n : Z)
+  : res (list Z) * Z * Z :=
+  match ph p with
+  | PDone r => (r, n, pni p)
+  | _ =>
+    match fuel with
+    | O => (Hang, n, pni p)
+    | S f =>
+      let a := budgeted w (hd_x script) in
+      run_script_any f k cmd (pcd_absorb_any k cmd p a) (tl script) (if wild_ans a then w - 1 else w) (n + 1)
+    end
+  end.
+(* enough fuel for any script (Proofs/TagSafeDep.v): (C + 1) * (len cmd + 2 + W) + C rounds, C = budget + 2 *)
+Definition dep_fuel (k : cfg) (cmd : list Z) : Z :=
+  (Z.max (n_nak k) (n_ack k) + 3) * (len cmd + 2 + W_MAX) + Z.max (n_nak k) (n_ack k) + 2.
+Definition dep_exchange (k : cfg) (cmd : list Z) (pn : Z) (script : list aresult) : res (list Z) * Z * Z :=
+  run_script_any (Z.to_nat (dep_fuel k cmd)) k cmd (pcd_start k cmd pn) script W_MAX 0.
